@@ -23,7 +23,7 @@ from ..gvn import Frame, Obj, PW, Vec, cases_of, veq, mk_pw, Unsupported
 from ..intervals import single_atom
 from . import detectors as d
 from . import rdp_model as rm
-from .common import RuleCtx, _short, sign_set_name, returned_names
+from .common import section, RuleCtx, _short, sign_set_name, returned_names
 
 C = Rat.const
 DETECTORS = ["curvature", "dfdt", "menger", "lmethod", "kneedle"]
@@ -46,15 +46,15 @@ def run(ctx):
     from .c16 import helper_contracts
     helper_contracts(rc, "M9", ("smape_points", "linear_r2_points", "linear_fit_points"))
     d.dtype_guard(rc, "M9", DETECTORS)
-    _no_recursion(rc)
-    _driver(rc)
+    section(rc, _no_recursion)
+    section(rc, _driver)
     # ---- M6 ---------------------------------------------------------------------
     d.curvature(rc, "M6", None)
     d.dfdt(rc, "M6", None, None)
     d.menger(rc, "M6", None)
     d.lmethod(rc, "M6", None, None)
     d.kneedle(rc, "M6", "M8")
-    _link(rc)
+    section(rc, _link)
     res.analysed["termination_argument"] = ("M3 + M6: k = rv + left with rv in [0, L-2] => left child (left, k+1) has length rv+1 <= L-1 and right child (k+1, right) has "
                                             "length L-rv-1 <= L-1; both strictly shorter than the parent, so at most n pops")
     res.assumptions += ["t2 >= the detector minimum (>= 3), t1 >= 0", "dependency contracts of uts.peak_detection (checked on the installed source) and uts.gradient"]
@@ -244,6 +244,21 @@ def _link(rc: RuleCtx):
         res.ok("M8", "multi_knee.multi_knee(get_knee)", f"slot receives exactly {sorted(want)}")
     else:
         fi = rc.func("multi_knee.multi_knee")
+        # a module that hands the slot a local callable (a nested function, a lambda, a functools.partial) is not a module that
+        # forgot its detector: what that callable computes is simply not read here
+        for q in sorted(want - pkg_got):
+            dmod = rc.repo.mod(q.split(".")[0])
+            for call in [n for n in ast.walk(dmod.tree) if isinstance(n, ast.Call)]:
+                try:
+                    r_ = lk.resolve(dmod, call.func)
+                except Exception:
+                    continue
+                if r_.kind != "func" or r_.obj.qualname != "multi_knee.multi_knee":
+                    continue
+                arg = call.args[0] if call.args and not isinstance(call.args[0], ast.Starred) else next((k.value for k in call.keywords if k.arg == "get_knee"), None)
+                if arg is not None and not lk._func_values_of_expr(dmod, arg):
+                    raise AnalysisError(f"{dmod.short}: the get_knee slot of multi_knee is bound to `{ast.unparse(arg)[:60]}`, a local callable the linker does not resolve "
+                                        "to a package function - shape not recognised")
         res.violation("M8", fi.module, fi.name, fi.node, "the five detector modules do not all bind their `knee` function to the get_knee slot", str(sorted(pkg_got)), str(sorted(want)),
                       construct="get_knee slot")
     # arity of each binding and resolution of each entry point's module
